@@ -595,10 +595,60 @@ def ident_model_stream(h, res, names):
     return len(words)
 
 
+SYMBOL_OPS = [o for o in g.BINOPS if o not in g.WORD_OPS]
+
+
+def lex_after_stream(h, res):
+    """The after-operand model (C10Ident.after_operand_lex on the generated rules) against the real
+    parser: every symbol operator after `a`, `a!`, `a!!`, `a.f`, with and without blanks."""
+    ctxs = [("", 0, 0), ("!", 1, 0), ("!!", 2, 0), (".f", 0, 1)]
+    gaps = [("", ""), (" ", " "), (" ", ""), ("", " "), ("\n", "\n")]
+    cases = []
+    for o in SYMBOL_OPS:
+        for post, nf, nd in ctxs:
+            for g1, g2 in gaps:
+                cases.append((o, post, nf, nd, post + g1 + g.BIN_TEXT[o] + g2 + "b"))
+
+    def cq(sx):
+        return '"' + sx.replace("\n", '" ++ nl ++ "') + '"'
+    try:
+        outs = c.coq_eval_batch(["Blots.PrattTypes", "Blots.C10Ident", "Blots.gen.IdentRules", "Blots.C10IdentImpl",
+                                 "Blots.PrattRender"], "",
+                                ["show_after (after_operand_impl (%s))" % cq(cs[4]) for cs in cases], "c10lex")
+    except c.BrokenTie as e:
+        res.tie_broken(e.what, e.detail)
+        return 0
+    impl = c.harness_lines_resilient(h, "parse10", [c.hexs("a" + cs[4]) for cs in cases])
+    mism = 0
+    rejects = 0
+    for (o, post, nf, nd, tail), m, im in zip(cases, outs, impl):
+        operand = ("id", "a")
+        for _ in range(nd):
+            operand = ("dot", operand, "f")
+        for _ in range(nf):
+            operand = ("fact", operand)
+        if m is not None and m.startswith("OP:") and m.endswith(":b"):
+            _, cnt, name, _ = m.split(":", 3)
+            exp = "E " + g.show(("bin", name, operand, ("id", "b"))) if cnt == "%d%d" % (nf, nd) else "?"
+        elif m is not None and m.startswith("END:") and not m.endswith(":"):
+            exp = "REJECT"
+            rejects += 1
+        else:
+            exp = "?"
+        if exp != im:
+            mism += 1
+            if mism == 1:
+                res.tie_broken("correspondence C10/LEX-after: the after-operand model and the real parser disagree",
+                               "text=%r model=%r impl=%r" % ("a" + tail, m, im))
+    res.streams["LEX-after"] = {"texts": len(cases), "mismatches": mism, "model_rejects": rejects}
+    return len(cases)
+
+
 def ident_stream(h, res, rng, tier, builtin_names, model_ok=True):
     names = ident_names(rng, tier, builtin_names)
     if model_ok:
         ident_model_stream(h, res, names)
+        lex_after_stream(h, res)
     lines, info = [], []
     for n in names:
         for src, exp in ident_templates(n):
